@@ -52,6 +52,7 @@ class RT:
         self.capture = capture
         self.log = []  # type: List[Tuple[Any, ...]]
         self.errlog = []  # type: List[Tuple[Any, ...]]
+        self.errseen = []  # type: List[Tuple[Tuple[Any, ...], Dict[str, Any]]]
         self.seen = []  # type: List[Tuple[Tuple[Any, ...], Dict[str, Any]]]
         self.phase = "setup"
         self.body_ran = False
@@ -64,6 +65,7 @@ class RT:
         self.body_kwargs = None
         del self.log[:]
         del self.errlog[:]
+        del self.errseen[:]
         del self.seen[:]
 
 
@@ -95,8 +97,15 @@ class Built:
         self.names = {}  # type: Dict[str, Tuple[Any, ...]]   # condition __name__ -> label
 
 
-def _error_kwargs(rt: Built, label: Tuple[Any, ...]) -> Dict[str, Any]:
+def _error_kwargs(rt: Built, label: Tuple[Any, ...], avail: Tuple[str, ...] = ()) -> Dict[str, Any]:
     mode = rt.error_mode
+    if mode == "factory_kw":
+        # an error factory that asks for every value available to this contract
+        def err_impl(kw: Dict[str, Any]) -> Exception:
+            rt.rt.errlog.append(label)
+            rt.rt.errseen.append((label, kw))
+            return Tag(label)
+        return {"error": mkfn(avail, err_impl, name="err_{}_{}_{}".format(*label))}
     if mode == "factory":
         def err() -> Exception:
             rt.rt.errlog.append(label)
@@ -118,7 +127,7 @@ def _error_kwargs(rt: Built, label: Tuple[Any, ...]) -> Dict[str, Any]:
 def identify(rt: Built, exc: BaseException) -> Optional[Tuple[Any, ...]]:
     """Which contract does the raised exception belong to (label), per the configured error form."""
     mode = rt.error_mode
-    if mode == "factory":
+    if mode in ("factory", "factory_kw"):
         if type(exc) is Tag:
             return exc.label  # type: ignore
         return None
@@ -245,13 +254,13 @@ def _decorate(rt: Built, prog: Prog, lvl: int, fn: Callable[..., Any]) -> Callab
     pparams = cparams + ("result",) + (("OLD",) if eff.snaps else ())
     for i in range(lev.post):
         fn = icontract.ensure(
-            _cond(rt, "post", lvl, i, pparams, is_async=False), **_error_kwargs(rt, ("post", lvl, i))
+            _cond(rt, "post", lvl, i, pparams, is_async=False), **_error_kwargs(rt, ("post", lvl, i), pparams)
         )(fn)
     for i in range(lev.snaps):
         fn = icontract.snapshot(_capture(rt, lvl, i, cparams), name="s_{}_{}".format(lvl, i))(fn)
     for i in range(lev.pre):
         fn = icontract.require(
-            _cond(rt, "pre", lvl, i, cparams), **_error_kwargs(rt, ("pre", lvl, i))
+            _cond(rt, "pre", lvl, i, cparams), **_error_kwargs(rt, ("pre", lvl, i), cparams)
         )(fn)
     return fn
 
@@ -315,7 +324,7 @@ def build(prog: Prog, rt: Optional[RT], use_dbc: bool = True, root_init: bool = 
             cls = icontract.invariant(
                 _cond(rt, "inv", lvl, i, ("self",)),
                 check_on=_CHECK_ON[on],
-                **_error_kwargs(rt, ("inv", lvl, i)),
+                **_error_kwargs(rt, ("inv", lvl, i), ("self",)),
             )(cls)
         built.classes.append(cls)
         prev = cls
